@@ -5,7 +5,7 @@ From V.lib Require Import Base.
 From V.c19 Require Import C19Model C19Spec C19InvProofs C19TrackProofs C19DescProofs C19ElngProofs C19ScopeProofs C19Witness.
 From V.c19 Require Import C19RecModel C19RecProofs C19RecLinkProofs.
 From V.c19 Require Import C19BoxCodec C19BoxModel.
-From V.c19 Require Import C19TreeModel C19TreeProofs C19TreeScopeProofs C19LeafProofs C19PrintParseProofs C19RoundtripProofs.
+From V.c19 Require Import C19TreeModel C19TreeProofs C19TreeScopeProofs C19LeafProofs C19PrintParseProofs C19RoundtripProofs C19ArgsProofs.
 
 
 (* For EVERY op sequence (any arguments, including calls that return an error or panic; the history stops
@@ -355,6 +355,31 @@ Theorem C19_roundtrip :
 Proof. exact roundtrip_all. Qed.
 Print Assumptions C19_roundtrip.
 
+(* the hypothesis args_okb is a consequence of hypotheses on the ARGUMENTS: 32-bit timescales, language tags of three
+   bytes or of two or more non-NUL bytes, parameter-set lists that fit the records' count/length fields, and SPS parsers
+   that answer in the ranges of their Go types (bytes for AVC profile/compatibility/level; the bit fields of
+   profile_tier_level, chroma format and bit depths for HEVC) *)
+Theorem C19_args_ok :
+  forall (avc_parse : avc_parser) (hevc_parse : hevc_parser),
+    avc_parser_ok avc_parse -> hevc_parser_ok hevc_parse ->
+    forall ops, N.of_nat (length ops) < 4294967295 -> forallb op_args_okb ops = true ->
+      args_okb (snd (run avc_parse hevc_parse ops)) = true.
+Proof. exact args_ok_run. Qed.
+Print Assumptions C19_args_ok.
+
+(* ... so C19_roundtrip holds for every history whose ARGUMENTS are in range (sizes below 2^32) *)
+Theorem C19_roundtrip_inputs :
+  forall (avc_parse : avc_parser) (hevc_parse : hevc_parser) (ops : list op),
+    avc_parser_ok avc_parse -> hevc_parser_ok hevc_parse ->
+    N.of_nat (length ops) < 4294967295 -> forallb op_args_okb ops = true ->
+    let s := snd (run avc_parse hevc_parse ops) in
+    forall ts, tree_of s = Some ts -> forallb enc_fits ts = true ->
+    exists bs, encode_seq false ts = Ok bs /\ decode_file bs = Ok ts
+      /\ (traks s <> [] -> is_fragmented_init ts = true)
+      /\ (forall t, In t (traks s) -> has_trex ts (tk_id t) = true).
+Proof. exact roundtrip_inputs. Qed.
+Print Assumptions C19_roundtrip_inputs.
+
 (* the converse of C01_tree for constructed trees: every tree made of well-formed parts (wf) is returned by C01's
    decode_box from the bytes C01's encoder writes for it, with any fuel of at least fuel_of t *)
 Theorem C19_print_then_parse :
@@ -534,3 +559,14 @@ Example C19_roundtrip_hyp :
   args_okb s = true /\ match tree_of s with Some ts => forallb enc_fits ts | None => false end = true
   /\ length (traks s) = 2%nat.
 Proof. vm_compute. repeat split; reflexivity. Qed.
+
+(* the argument hypotheses are satisfiable: constant in-range parsers and the ten calls of ex_ops *)
+Definition ex_avc_const : avc_parser := fun _ => Some (1280, 720, (244, 0, 51, (3, 2, 2))).
+Example C19_roundtrip_inputs_hyp :
+  avc_parser_ok ex_avc_const /\ hevc_parser_ok ex_hevc_const /\ forallb op_args_okb ex_ops = true.
+Proof.
+  split; [|split].
+  - intros sps w h pr c l x E. unfold ex_avc_const in E. inversion E. repeat split; reflexivity.
+  - intros sps w h cfg E. unfold ex_hevc_const in E. inversion E. split; vm_compute; reflexivity.
+  - vm_compute. reflexivity.
+Qed.
